@@ -220,6 +220,12 @@ pub use self::sorter::{
 };
 pub use self::writer::{Writer, WriterBuilder};
 
+/// Verification hook: re-exports the entry length framing.
+#[cfg(grenad_verif)]
+pub mod verif {
+    pub use crate::varint::{varint_decode32, varint_encode32};
+}
+
 pub type Result<T, U = Infallible> = std::result::Result<T, Error<U>>;
 
 /// Sometimes we need to use an unsafe trick to make the compiler happy.
